@@ -2,6 +2,7 @@ package specification
 
 import (
 	"fmt"
+	"strings"
 
 	"github.com/getkin/kin-openapi/openapi3"
 )
@@ -40,7 +41,8 @@ func NewSecurityScheme(s *openapi3.SecurityScheme) (*SecurityScheme, error) {
 		Name: s.Name,
 		In:   SecuritySchemeIn(s.In),
 
-		Scheme:       s.Scheme,
+		// names of HTTP authentication schemes are case-insensitive (RFC 7235); the IANA registry writes "Bearer"
+		Scheme:       strings.ToLower(s.Scheme),
 		BearerFormat: s.BearerFormat,
 
 		Flows: flows,
